@@ -50,8 +50,35 @@ def check_write_discipline(chk):
         where = "%s:%s" % (rel(fn["file"]), fn["line"])
         vs = stream_vars(fn, "basic_ofstream")
         key = "write_file"
-        if not vs:
-            chk.broke("write_file no longer uses an std::ofstream: extend gio.py")
+        # counting writes: an API that reports how much it wrote only through its return value (`write(2)` wrappers such as
+        # fmt::file::write, streambuf::sputn, fwrite) - a short write is a normal outcome there, not an error, and a
+        # discarded count means a truncated file with exit 0
+        par0 = gen.parents(fn)
+        n_count = 0
+        for n in walk(fn["body"]):
+            c = n.get("callee") or {}
+            if n.get("k") not in ("CXXMemberCallExpr", "CallExpr") or c.get("name") not in ("write", "sputn", "fwrite", "xsputn", "pwrite", "writev"):
+                continue
+            rt = (c.get("ret") or n.get("t") or "")
+            if "basic_ostream" in rt or rt in ("void", ""):
+                continue            # a stream's write(): failures are reported through the stream state (rules below)
+            n_count += 1
+            parent = par0.get(id(n), (None, None))[0]
+            while parent is not None and parent.get("k") in ("ImplicitCastExpr", "ExprWithCleanups", "ParenExpr", "CXXStaticCastExpr") \
+                    and "void" not in (parent.get("t") or ""):
+                parent = par0.get(id(parent), (None, None))[0]
+            discarded = parent is None or parent.get("k") in ("CompoundStmt", "IfStmt", "ForStmt", "WhileStmt", "CXXTryStmt") \
+                or (parent.get("k") in ("CStyleCastExpr", "CXXStaticCastExpr", "CXXFunctionalCastExpr") and "void" in (parent.get("t") or ""))
+            wl = "%s:%s" % (rel(fn["file"]), n.get("l"))
+            if discarded:
+                chk.violation("G-IO.write", "write_file:count", wl,
+                              "fs_provider::write_file calls %s(...), which reports the number of bytes written through its return "
+                              "value, and discards it: a short write (disk filling up, quota, interrupted write) leaves a truncated "
+                              "file and sbeppc exits 0" % (c.get("base") or c.get("name")))
+            else:
+                chk.ok("G-IO.write", "write_file:count#%s" % n.get("l"), {"where": wl, "call": c.get("name"), "result_used_by": parent.get("k")}, nontrivial=True)
+        if not vs and not n_count:
+            chk.broke("write_file uses neither an std::ofstream nor a counting write: extend gio.py")
         for did, name in vs.items():
             idx = order_index(fn)
             writes, syncs, tests = [], [], []
